@@ -40,8 +40,8 @@ func propC11(w *World, r *Report) {
 		"go-config's struct tags map TOML keys to the named fields (dependency)", "cross-reference (not a verdict): the error of LoadMotionConfig is dropped by the connection handler"}
 	pkgRel := "cmd/thermal-recorder"
 	e := newTermEnv(w)
-	ctor := w.Func(pkgRel, "NewCPTVFileRecorder")
 	T := w.NamedType(pkgRel, "CPTVFileRecorder")
+	ctor := w.ctorOf(T)
 	if ctor == nil || T == nil {
 		r.Unknown("roles", "NewCPTVFileRecorder", "-", "not found")
 		return
@@ -429,7 +429,7 @@ func checkConfigMapping(w *World, r *Report) {
 
 // H5
 func checkParserSelection(w *World, r *Report, ci *connInfo) {
-	sel := w.Func("cmd/thermal-recorder", "frameParser")
+	sel := findParserSelector(w)
 	if sel == nil {
 		r.Unknown("H5", "frameParser", "-", "not found")
 		return
@@ -463,7 +463,10 @@ func checkParserSelection(w *World, r *Report, ci *connInfo) {
 		case hasGuard(p.Conds, m3) || hasGuard(p.Conds, m35):
 			want = "func:github.com/TheCacophonyProject/lepton3.ParseRawFrame"
 		case hasGuard(p.Conds, boson):
-			want = "func:" + modPath + "/cmd/thermal-recorder.convertRawBosonFrame"
+			want = "func:<the repository's own Boson parser>"
+			if strings.HasPrefix(ret, "func:"+modPath+"/cmd/thermal-recorder.") {
+				want = ret // identified structurally; its little-endian decoding and border predicate are C13.B1's
+			}
 		default:
 			want = "nil"
 		}
@@ -485,11 +488,11 @@ func checkParserSelection(w *World, r *Report, ci *connInfo) {
 			if c, ok := in.(*ssa.Call); ok && c.Call.StaticCallee() != nil && c.Call.StaticCallee().Name() == "NewMotionProcessor" {
 				t := he.termOf(c.Call.Args[0]).String()
 				hi := "global:main.headerInfo"
-				r.Check(strings.HasSuffix(t, "frameParser(headers.HeaderInfo.Brand("+hi+"), headers.HeaderInfo.Model("+hi+"))"), "H5", "the processor parses with the parser selected for headerInfo's brand and model", w.InstrPos(c), t)
+				r.Check(strings.HasSuffix(t, "."+sel.Name()+"(headers.HeaderInfo.Brand("+hi+"), headers.HeaderInfo.Model("+hi+"))"), "H5", "the processor parses with the parser selected for headerInfo's brand and model", w.InstrPos(c), t)
 				gs := he.guardsOf(b)
 				okNil := false
 				for _, g := range gs {
-					if strings.HasPrefix(g.String(), "ne(") && strings.Contains(g.String(), "frameParser(") {
+					if strings.HasPrefix(g.String(), "ne(") && strings.Contains(g.String(), "."+sel.Name()+"(") {
 						okNil = true
 					}
 				}
